@@ -93,16 +93,53 @@ func collectMsgs(n ast.Node, f func(*ast.MsgNode)) {
 	}
 }
 
+// bodyPlaceholderString renders the children of a message body as text with {NAME} placeholders.
+func bodyPlaceholderString(n ast.ParentNode) string {
+	var b strings.Builder
+	for _, ch := range n.Children() {
+		switch ch := ch.(type) {
+		case *ast.RawTextNode:
+			b.Write(ch.Text)
+		case *ast.MsgPlaceholderNode:
+			b.WriteString("{" + ch.Name + "}")
+		}
+	}
+	return b.String()
+}
+
+// translatedMessage builds the catalogue entry for m, transforming every form with tr. Plural
+// messages get two forms, as a PO catalogue for an English-like locale would: [one, other].
+func translatedMessage(m *ast.MsgNode, tr func(string) string) *soymsg.Message {
+	children := m.Body.Children()
+	if len(children) == 1 {
+		if pl, ok := children[0].(*ast.MsgPluralNode); ok {
+			one := pl.Default
+			for _, c := range pl.Cases {
+				if c.Value == 1 {
+					one = c.Body
+				}
+			}
+			return &soymsg.Message{ID: m.ID, Parts: []soymsg.Part{soymsg.PluralPart{VarName: pl.VarName, Cases: []soymsg.PluralCase{
+				{Spec: soymsg.PluralSpec{Type: soymsg.PluralSpecOther, ExplicitValue: -1}, Parts: soymsg.Parts(tr(bodyPlaceholderString(one)))},
+				{Spec: soymsg.PluralSpec{Type: soymsg.PluralSpecOther, ExplicitValue: -1}, Parts: soymsg.Parts(tr(bodyPlaceholderString(pl.Default)))},
+			}}}}
+		}
+	}
+	for _, ch := range children {
+		if _, ok := ch.(*ast.MsgPluralNode); ok {
+			return nil
+		}
+	}
+	return soymsg.NewMessage(m.ID, tr(soymsg.PlaceholderString(m)))
+}
+
 func identityBundleFor(reg *template.Registry) *identityBundle {
 	b := &identityBundle{msgs: map[uint64]*soymsg.Message{}}
 	for _, t := range reg.Templates {
 		collectMsgs(t.Node, func(m *ast.MsgNode) {
-			for _, ch := range m.Body.Children() {
-				if _, ok := ch.(*ast.MsgPluralNode); ok {
-					return
-				}
+			if msg := translatedMessage(m, func(s string) string { return s }); msg != nil {
+				b.msgs[m.ID] = msg
 			}
-			b.msgs[m.ID] = soymsg.NewMessage(m.ID, soymsg.PlaceholderString(m))
 		})
 	}
 	return b
@@ -125,6 +162,8 @@ func c12Fixed() []string {
 		"{css cls}{css $x, suf}{css $s, t}z",
 		"{msg desc=\"d\"}Hello <b>{$x}</b> and <i>{$s}</i>!{/msg}",
 		"{msg desc=\"d\"}{$x}{/msg}{msg desc=\"e\" meaning=\"m\"}plain{/msg}tail",
+		"{msg desc=\"p\"}{plural $x}{case 1}one <b>{$s}</b> item{default}{$x} items of {$s}!{/plural}{/msg}end",
+		"[{msg desc=\"p\"}{plural $x}{case 0}none{case 1}single{default}many: {$x}{/plural}{/msg}]",
 		"{let $w}in{$s}side{/let}[{$w}][{$w|noAutoescape}]",
 		"{call .inner}{param p}c{$s}d{/param}{/call}after",
 		"{call .inner data=\"all\"/}{call .inner}{param p: $x /}{/call}",
